@@ -6,10 +6,18 @@ Model: `Model/JsonIO.lean` (`toDict` = `triangle_to_dict`; `decode` = `json.JSON
 Only property theorems here; helpers in `Lemmas/JsonIO.lean`.
 
 Structure of the full statement (DESIGN §7 C07 T), all proved:
-  A  toDict_shape    : WFjson t → plainRead (toDict t) = some (asTyped t)      (Lemmas/JsonIOEncode)
+  A' toDict_shape_strict : WFjson t → plainReadStrict (toDict t) = some (asTyped t)  (Lemmas/JsonIOEncode)
+     plainRead_of_strict : plainReadStrict j = some cells → plainRead j = some cells (Lemmas/JsonIOStrict)
+  A  toDict_shape    : WFjson t → plainRead (toDict t) = some (asTyped t)
   B  fromDict_plain  : plainRead j = some cells → fromDict j = ofJCells cells  (Lemmas/JsonIODecode)
   C  ofJCells_asTyped: WFjson t → ofJCells (asTyped t) = .ok (asTyped t)
   ⇒  fromDict_toDict : WFjson t → fromDict (toDict t) = .ok (asTyped t)
+Two plain readers (Spec/C07.lean): `plainReadStrict` reads a date only as `YYYY-MM-DD` (clause "each
+cell with ISO dates": what the library WRITES, `textSpec`); `plainRead` reads dates as `strptime`
+does (clause "JSON written by such a plain serializer is loaded correctly": what the library
+ACCEPTS, `fromDict_plain`). The strict reader is a restriction of the lenient one.
+Bridges `spec_*`: the predicates the driver evaluates on the implementation's output hold on the
+model's output.
 -/
 import Bermuda.Lemmas.JsonIOEncode
 import Bermuda.Spec.C07
@@ -28,6 +36,58 @@ theorem parseIso_dateIso (d : Date) (h : wfDate d = true) : parseIso (dateIso d)
 /-- the restriction is real: glibc prints year 999 as "999", which `%Y` (four digits) refuses -/
 theorem year_999_not_read_back :
     errIs (parseIso (dateIso ⟨999, 1, 1⟩)) .valueError = true := by decide +kernel
+
+def okDate (r : Except Err Date) (d : Date) : Bool :=
+  match r with | .ok a => a == d | _ => false
+
+/-- **ISO clause, writer side.** For a real date with a four-digit year the text written is
+EXACTLY four digits, `-`, two digits, `-`, two digits — the zero-padded decimal digits of year,
+month and day (`digitChar k` is the ASCII digit of `k`, `digitChar_table`). -/
+theorem dateIso_shape (d : Date) (h : wfDate d = true) :
+    ∃ y1 y2 y3 y4 m1 m2 d1 d2 : Nat,
+      (y1 < 10 ∧ y2 < 10 ∧ y3 < 10 ∧ y4 < 10 ∧ m1 < 10 ∧ m2 < 10 ∧ d1 < 10 ∧ d2 < 10) ∧
+      (dateIso d).toList = [digitChar y1, digitChar y2, digitChar y3, digitChar y4, '-',
+                            digitChar m1, digitChar m2, '-', digitChar d1, digitChar d2] ∧
+      d.y = ((1000 * y1 + 100 * y2 + 10 * y3 + y4 : Nat) : Int) ∧ d.m = 10 * m1 + m2 ∧
+      d.d = 10 * d1 + d2 := by
+  have hl := dateIso_toList d h
+  obtain ⟨y, m, dd⟩ := d
+  simp only [wfDate, Date.valid, Bool.and_eq_true, decide_eq_true_eq] at h
+  obtain ⟨⟨⟨⟨⟨hm1, hm2⟩, hd1⟩, hd2⟩, hy1⟩, hy2⟩ := h
+  have hdd : dd < 32 := by have := dim_le_31 y m; omega
+  obtain ⟨n, rfl⟩ : ∃ n : Nat, y = (n : Int) := ⟨y.toNat, by omega⟩
+  simp only [Int.toNat_natCast] at hl
+  refine ⟨n / 1000 % 10, n / 100 % 10, n / 10 % 10, n % 10, m / 10 % 10, m % 10, dd / 10 % 10, dd % 10,
+    by omega, ?_, ?_, by simp only; omega, by simp only; omega⟩
+  · rw [hl]; simp only [← digitChar_mod]
+  · simp only; omega
+
+theorem digitChar_table :
+    (List.range 10).map digitChar = ['0', '1', '2', '3', '4', '5', '6', '7', '8', '9'] := by decide
+
+theorem dateIso_length (d : Date) (h : wfDate d = true) : (dateIso d).length = 10 := by
+  rw [← String.length_toList, dateIso_toList d h]; rfl
+
+/-- the strict ISO reader (`Spec.C07.strictIso`: ten characters `YYYY-MM-DD`, ASCII digits, a real
+calendar date; written from ISO 8601, not from the model's `strptime`) reads the written text back -/
+theorem strictIso_dateIso (d : Date) (h : wfDate d = true) : strictIso (dateIso d) = some d :=
+  JsonIO.strictIso_dateIso d h
+
+/-- strict ⊆ lenient: whatever the strict reader accepts, `strptime` reads to the same date -/
+theorem strictIso_parseIso (s : String) (d : Date) (h : strictIso s = some d) : parseIso s = .ok d :=
+  JsonIO.strictIso_parseIso h
+
+/-- **ISO clause, text side.** The strict reader accepts exactly ONE text per date, the one
+`dateIso` writes: a writer whose text for `d` passes `strictIso` wrote `dateIso d`. -/
+theorem strictIso_unique (s : String) (d : Date) (h : strictIso s = some d) (hy : 1000 ≤ d.y) :
+    s = dateIso d :=
+  JsonIO.strictIso_unique h hy
+
+/-- the two readers really differ: an un-padded date is not ISO, but `strptime` takes it -/
+theorem unpadded_not_iso :
+    (strictIso "2020-1-5").isNone = true ∧ okDate (parseIso "2020-1-5") ⟨2020, 1, 5⟩ = true ∧
+    (strictIso "2020-01- 5").isNone = true ∧ okDate (parseIso "2020-01- 5") ⟨2020, 1, 5⟩ = true := by
+  decide +kernel
 
 /-! ### classes: `Cell` comes back as `CumulativeCell`, nothing else changes -/
 
@@ -57,10 +117,21 @@ theorem ofJCells_asTyped (t : List JCell) (h : WFjson t = true) :
   exact (pairwise_of_sortedJ t hs).imp (fun {a b} hab => by rw [le_typed]; exact hab)
 
 
-/-- **toDict_shape.** The JSON text's AST, read by a plain reader that knows nothing of the
-library's hook, is the original triangle: each slice's metadata attributes once (`None` / `{}`
-omitted), the cells in order with ISO dates, `prev_evaluation_date` exactly on incremental cells,
-every value with its kind (int vs float, `None`, arrays in order). -/
+/-- **toDict_shape_strict.** The JSON text's AST, read by a plain reader that knows nothing of the
+library's hook and takes a date only as `YYYY-MM-DD`, is the original triangle: each slice's
+metadata attributes once (`None` / `{}` omitted), the cells in order with ISO dates,
+`prev_evaluation_date` exactly on incremental cells, every value with its kind (int vs float,
+`None`, arrays in order). -/
+theorem toDict_shape_strict (t : List JCell) (h : WFjson t = true) :
+    plainReadStrict (toDict t) = some (asTyped t) :=
+  JsonIO.toDict_shape_strict t h
+
+/-- the strict plain reader is a restriction of the lenient one (same cells, fewer documents) -/
+theorem plainRead_of_strict (j : JVal) (cells : List JCell) (h : plainReadStrict j = some cells) :
+    plainRead j = some cells :=
+  JsonIO.plainRead_of_strict h
+
+/-- **toDict_shape.** The same through the lenient plain reader (the domain of `fromDict_plain`). -/
 theorem toDict_shape (t : List JCell) (h : WFjson t = true) :
     plainRead (toDict t) = some (asTyped t) :=
   JsonIO.toDict_shape t h
@@ -80,6 +151,77 @@ float scalars, `None`, and arrays with dtype and order. -/
 theorem fromDict_toDict (t : List JCell) (h : WFjson t = true) :
     fromDict (toDict t) = .ok (asTyped t) := by
   rw [fromDict_plain _ _ (toDict_shape t h), ofJCells_asTyped t h]
+
+/-! ### "lists each slice's metadata once" -/
+
+/-- the document has exactly one slice object per slice (`tri.slices`), whatever the triangle -/
+theorem toDict_one_object_per_slice (t : List JCell) :
+    ∃ ss, toDict t = .obj [("slices", .arr ss)] ∧
+      ss.length = (groupBy (fun c : JCell => c.md.toMetadata) t).length ∧
+      ss = (slicesOf t).map sliceToDict :=
+  ⟨_, rfl, by simp [slicesOf], rfl⟩
+
+/-- on a well-formed (sorted) triangle the slices are the contiguous runs of equal metadata: no
+cell moves, so each slice object carries its metadata once and the cells follow in triangle order -/
+theorem slicesOf_eq_groups (t : List JCell) (h : WFjson t = true) :
+    slicesOf t = (groupBy (fun c : JCell => c.md.toMetadata) t).map (·.2) :=
+  JsonIO.slicesOf_eq_groups t h
+
+/-! ### bridges: the Spec predicates the driver runs on the implementation's output hold on the
+model's output -/
+
+theorem spec_slicesOnce (t : List JCell) : slicesOnce t (toDict t) = true := by
+  simp [slicesOnce, toDict, slicesOf]
+
+theorem spec_textSpec (t : List JCell) (h : WFjson t = true) : textSpec t (toDict t) = true := by
+  simp only [textSpec, JsonIO.toDict_shape_strict t h, sameCells_refl]
+
+theorem spec_loadSpec (t r : List JCell) (h : WFjson t = true) (hr : fromDict (toDict t) = .ok r) :
+    loadSpec t r = true := by
+  rw [fromDict_toDict t h] at hr
+  cases hr
+  exact sameCells_refl _
+
+/-- what `textSpec` says of ANY document `j` (e.g. the implementation's): a strict plain reading
+exists, it agrees with the original up to dict key order, and the library's decoder loads `j` to
+`Triangle(those cells)` -/
+theorem textSpec_sound (t : List JCell) (j : JVal) (h : textSpec t j = true) :
+    ∃ cells, plainReadStrict j = some cells ∧ sameCells cells (asTyped t) = true ∧
+      fromDict j = ofJCells cells := by
+  unfold textSpec at h
+  split at h
+  · rename_i cells hc
+    exact ⟨cells, hc, h, fromDict_plain j cells (JsonIO.plainRead_of_strict hc)⟩
+  · cases h
+
+/-! ### the entry points all reduce to `toDict` / `fromDict` (text layer outside the model) -/
+
+theorem import_routes (doc : JVal) :
+    jsonStringToTriangle doc = fromDict doc ∧ jsonToTriangle (.path doc) = fromDict doc ∧
+    jsonToTriangle (.handle doc) = fromDict doc ∧ dictToTriangle doc = fromDict doc ∧
+    triangleJsonLoads doc = fromDict doc ∧ triangleJsonLoad doc = fromDict doc :=
+  ⟨rfl, rfl, rfl, rfl, rfl, rfl⟩
+
+/-- `to_json()` / `to_json(path)` / `to_json(handle)` / `to_dict()`: one document, `toDict t`,
+returned or written (`to_json("")` returns it) -/
+theorem export_routes (t : List JCell) (d : Dest) : exported (triangleToJson t d) = some (toDict t) := by
+  cases d with
+  | none => rfl
+  | path name => simp only [triangleToJson]; split <;> rfl
+  | handle => rfl
+
+/-- every export route followed by every import route is the identity (up to `Cell` → `CumulativeCell`) -/
+theorem roundtrip_every_route (t : List JCell) (h : WFjson t = true) (d : Dest) (doc : JVal)
+    (hd : exported (triangleToJson t d) = some doc) :
+    jsonStringToTriangle doc = .ok (asTyped t) ∧ jsonToTriangle (.path doc) = .ok (asTyped t) ∧
+    jsonToTriangle (.handle doc) = .ok (asTyped t) ∧ dictToTriangle doc = .ok (asTyped t) ∧
+    triangleJsonLoads doc = .ok (asTyped t) ∧ triangleJsonLoad doc = .ok (asTyped t) := by
+  rw [export_routes] at hd
+  cases hd
+  obtain ⟨a, b, c, d, e, f⟩ := import_routes (toDict t)
+  rw [a, b, c, d, e, f]
+  exact ⟨fromDict_toDict t h, fromDict_toDict t h, fromDict_toDict t h, fromDict_toDict t h,
+    fromDict_toDict t h, fromDict_toDict t h⟩
 
 /-! ### non-vacuity and a concrete round trip (kernel evaluation of the model) -/
 
@@ -111,5 +253,114 @@ theorem ex_risk_basis_none :
 theorem ex_field_named_cells :
     errIs (fromDict (toDict (ex.map fun c => { c with values := [("cells", .int 1)] }))) .typeError = true := by
   decide +kernel
+
+/-! ### a second witness: two slices, five cells of class `Cell` (so `sortedJ`, `mdCoherent`, the
+grouping and `asTyped` are not trivially true) -/
+
+def mdA : JMeta := { country := some "US", limit := .flt 250000, details := [("coverage", .str "BI")] }
+/-- differs from `mdA` only in `loss_details` -/
+def mdB : JMeta := { mdA with lossDetails := [("flag", .bool true)] }
+def mkC (m : JMeta) (ps pe ev : Date) (v : Dict Val) : JCell :=
+  { kind := .cell, ps := ps, pe := pe, ev := ev, values := v, md := m }
+
+def ex2 : List JCell :=
+  [ mkC mdA ⟨2020, 1, 1⟩ ⟨2020, 12, 31⟩ ⟨2020, 12, 31⟩ [("paid_loss", .int 5), ("s", .arr true [2] [2, 1])],
+    mkC mdA ⟨2020, 1, 1⟩ ⟨2020, 12, 31⟩ ⟨2021, 12, 31⟩ [("paid_loss", .flt 7), ("s", .arr false [2] [1/2, 1])],
+    mkC mdA ⟨2021, 1, 1⟩ ⟨2021, 12, 31⟩ ⟨2021, 12, 31⟩ [("paid_loss", .none)],
+    mkC mdB ⟨2020, 1, 1⟩ ⟨2020, 12, 31⟩ ⟨2020, 12, 31⟩ [("paid_loss", .int 5)],
+    mkC mdB ⟨2020, 1, 1⟩ ⟨2020, 12, 31⟩ ⟨2021, 12, 31⟩ [("paid_loss", .int 6)] ]
+
+theorem ex2_wf : WFjson ex2 = true := by decide +kernel
+
+/-- two slices of three and two cells; the round trip holds and is NOT the identity on classes
+(`Cell` came back as `CumulativeCell`); the document read strictly is the typed triangle -/
+theorem ex2_roundtrip :
+    (slicesOf ex2).map List.length = [3, 2] ∧ fromDict (toDict ex2) = .ok (asTyped ex2) ∧
+    (asTyped ex2 != ex2) = true ∧ plainReadStrict (toDict ex2) = some (asTyped ex2) ∧
+    textSpec ex2 (toDict ex2) = true ∧ slicesOnce ex2 (toDict ex2) = true := by
+  refine ⟨?_, fromDict_toDict ex2 ex2_wf, by decide +kernel, toDict_shape_strict ex2 ex2_wf,
+    spec_textSpec ex2 ex2_wf, spec_slicesOnce ex2⟩
+  rw [slicesOf_eq_groups ex2 ex2_wf]
+  decide +kernel
+
+/-! ### the remaining restrictions of `WFjson`, each with a kernel-evaluated witness -/
+
+/-- a document with an un-padded month and day: it is loaded correctly (clause "written by a plain
+serializer"), the lenient plain reader reads it, but it is NOT what the library may write —
+`textSpec` refuses it -/
+def exU : List JCell :=
+  [{ kind := .cumulative, ps := ⟨2020, 1, 5⟩, pe := ⟨2020, 12, 31⟩, ev := ⟨2020, 12, 31⟩,
+     values := [("paid_loss", .int 5)] }]
+
+def docUnpadded : JVal :=
+  .obj [("slices", .arr [.obj [("risk_basis", .str "Accident"), ("cells", .arr [.obj [
+    ("period_start", .str "2020-1-5"), ("period_end", .str "2020-12-31"),
+    ("evaluation_date", .str "2020-12-31"), ("values", .obj [("paid_loss", .int 5)])]])]])]
+
+theorem ex_unpadded_document :
+    WFjson exU = true ∧ textSpec exU docUnpadded = false ∧ textSpec exU (toDict exU) = true ∧
+    (plainRead docUnpadded == some exU) = true ∧ okEq (fromDict docUnpadded) exU = true := by
+  decide +kernel
+
+/-- int64 arrays must be non-empty: `[]` carries no dtype, an empty int64 array reads back float64 -/
+theorem ex_empty_int64_array :
+    WFjson (ex.map fun c => { c with values := [("s", .arr true [0] [])] }) = false ∧
+    okEq (fromDict (toDict (ex.map fun c => { c with values := [("s", .arr true [0] [])] })))
+      (asTyped (ex.map fun c => { c with values := [("s", .arr false [0] [])] })) = true := by
+  decide +kernel
+
+/-- a `bool` limit is outside `WFjson` because the documented shape has a NUMBER there: the plain
+readers refuse `"per_occurrence_limit": true`; the library's own round trip keeps it -/
+theorem ex_bool_limit :
+    WFjson (ex.map fun c => { c with md := { c.md with limit := .bool true } }) = false ∧
+    (plainRead (toDict (ex.map fun c => { c with md := { c.md with limit := .bool true } }))).isNone = true ∧
+    okEq (fromDict (toDict (ex.map fun c => { c with md := { c.md with limit := .bool true } })))
+      (asTyped (ex.map fun c => { c with md := { c.md with limit := .bool true } })) = true := by
+  decide +kernel
+
+/-- `None` detail values are outside `WFjson` (the property quantifies over str/int/float/bool
+detail values) — a conservative restriction: they do round-trip, also through the strict reader -/
+theorem ex_none_detail_value :
+    WFjson (ex.map fun c => { c with md := { c.md with details := [("coverage", .null)] } }) = false ∧
+    okEq (fromDict (toDict (ex.map fun c => { c with md := { c.md with details := [("coverage", .null)] } })))
+      (asTyped (ex.map fun c => { c with md := { c.md with details := [("coverage", .null)] } })) = true ∧
+    (plainReadStrict (toDict (ex.map fun c => { c with md := { c.md with details := [("coverage", .null)] } }))
+      == some (asTyped (ex.map fun c => { c with md := { c.md with details := [("coverage", .null)] } }))) = true := by
+  decide +kernel
+
+/-- arrays of rank ≠ 1 are outside `WFjson` AND outside the model: `valToJ` writes them flat (the
+implementation writes nested lists and keeps the shape) -/
+theorem ex_rank2_flat_in_model :
+    WFjson (ex.map fun c => { c with values := [("s", .arr true [2, 2] [1, 2, 3, 4])] }) = false ∧
+    okEq (fromDict (toDict (ex.map fun c => { c with values := [("s", .arr true [2, 2] [1, 2, 3, 4])] })))
+      (asTyped (ex.map fun c => { c with values := [("s", .arr true [4] [1, 2, 3, 4])] })) = true := by
+  decide +kernel
+
+/-- `mdCoherent`: two cells Python puts in ONE slice (`True == 1`, equal `Metadata`) with different
+JSON-level metadata -/
+def exIncoh : List JCell :=
+  [ mkC { mdA with details := [("flag", .bool true)] } ⟨2020, 1, 1⟩ ⟨2020, 12, 31⟩ ⟨2020, 12, 31⟩
+      [("paid_loss", .int 5)],
+    mkC { mdA with details := [("flag", .int 1)] } ⟨2020, 1, 1⟩ ⟨2020, 12, 31⟩ ⟨2021, 12, 31⟩
+      [("paid_loss", .int 6)] ]
+
+/-- what comes back: both cells carry the FIRST cell's metadata (the second cell's `1` became `True`) -/
+def exIncohBack : List JCell :=
+  asTyped (exIncoh.map fun c => { c with md := { mdA with details := [("flag", .bool true)] } })
+
+/-- the restriction `mdCoherent` is real: everything else of `WFjson` holds, and the slice's
+metadata — written once, from its first cell — replaces the second cell's -/
+theorem ex_mdCoherent :
+    (mdCoherent exIncoh = false ∧
+      (exIncoh.all wfCell && kindsConsistent (exIncoh.map JCell.toCell) && sortedJ exIncoh) = true) ∧
+    fromDict (toDict exIncoh) = .ok exIncohBack ∧ (exIncohBack != asTyped exIncoh) = true := by
+  refine ⟨by decide +kernel, ?_, by decide +kernel⟩
+  have hs : slicesOf exIncoh = [exIncoh] := by
+    rw [slicesOf_of_sorted_groups exIncoh (by decide +kernel)]
+    decide +kernel
+  have hp : plainRead (toDict exIncoh) = some exIncohBack := by
+    unfold toDict; rw [hs]; decide +kernel
+  rw [fromDict_plain _ _ hp]
+  exact ofJCells_sorted _ (by decide +kernel) (by decide +kernel)
 
 end Bermuda.Properties.C07
